@@ -55,13 +55,14 @@ type regSys struct {
 	postCheck func(s *regSys, op Op, out Outcome) // property-specific invariants after each checked transition
 	// onStep runs after every transition, also while replaying (check=false):
 	// history monitors rebuild their state here and report only when check is set.
-	backdoor ociregistry.Interface // the registry underneath a wrapper, for operations made behind the wrapper's back
-	depth    int                   // search depth of the state being produced (set by vstate.BFS)
-	opFilter func(op Op) bool      // optional restriction of the enabled operations in the current state
-	onStep   func(s *regSys, op Op, out Outcome, check bool) (tainted bool)
-	noOracle bool // the reference model only tracks (follows the implementation); no model comparison
-	sub      string
-	hint     int // chunk-size hint passed to PushBlobChunked / PushBlobChunkedResume
+	backdoor  ociregistry.Interface // the registry underneath a wrapper, for operations made behind the wrapper's back
+	depth     int                   // search depth of the state being produced (set by vstate.BFS)
+	opFilter  func(op Op) bool      // optional restriction of the enabled operations in the current state
+	onStep    func(s *regSys, op Op, out Outcome, check bool) (tainted bool)
+	noOracle  bool // the reference model only tracks (follows the implementation); no model comparison
+	sub       string
+	heldLists bool // the sweep also obtains all listings first and consumes them afterwards (direct registries)
+	hint      int  // chunk-size hint passed to PushBlobChunked / PushBlobChunkedResume
 }
 
 type c02Case struct {
@@ -398,8 +399,19 @@ func (s *regSys) Apply(op Op, check bool) (tainted bool) {
 				}
 			}
 		}
+		var held map[string]string
+		if s.heldLists {
+			held = heldListings(s.ctx, s.reg, queries)
+		}
 		for _, q := range queries {
 			obs := runQuery(s.ctx, s.reg, q)
+			if h, ok := held[q.String()]; ok {
+				if now := fmt.Sprintf("%v err=%v", obs.Items, !obs.OK); now != h {
+					s.r.Violate(sub, fmt.Sprintf("%s/%s/after-%s/%s/listing-held-while-others-were-obtained-differs", s.prop, s.mode, op.K, q.K), s.caseOf(nil),
+						"a listing obtained before other listings delivers what the same listing delivers on its own: "+now, q.String()+": "+h)
+					tainted = true
+				}
+			}
 			if mism := s.model.CheckObs(s.u, obs); mism != "" {
 				s.r.Violate(sub, fmt.Sprintf("%s/%s/after-%s/%s/%s", s.prop, s.mode, op.K, q.K, fpClass(mism)), s.caseOf(nil),
 					"agreement with the reference model", q.String()+": "+mism)
@@ -467,7 +479,7 @@ func newMemSys(r *vcore.Run, prop string, u *universe, cfg alphabetConfig, immut
 		mode = "immutable-tags"
 	}
 	return &regSys{r: r, prop: prop, mode: mode, u: u, cfg: cfg, static: u.staticOps(cfg), reg: reg, raw: reg,
-		model: NewModel(immutable), queries: sweepQueries(u, append(append([]string(nil), u.Repos...), "q")), ctx: context.Background()}
+		model: NewModel(immutable), queries: sweepQueries(u, append(append([]string(nil), u.Repos...), "q")), ctx: context.Background(), heldLists: true}
 }
 
 // c02Seeds are non-initial start states (histories replayed without checks).
